@@ -270,8 +270,11 @@ def scenarios():
     scen('global-reload', _w([{'id': 'c0', 'holder': 'dict', 'global': 'g0'}, {'id': 'c1', 'holder': 'Config', 'global': 'g0'},
                               {'id': 'c2', 'holder': 'dict', 'syntax': 'jsx', 'global': 'g0'}], globals_={'g0': g1}),
          [call('c0', 'gs>a+br'), call('c1', 'gs>a+br'), call('c2', '.x+gs'), {'op': 'set_global', 'global': 'g0', 'layer': g2},
-          call('c0', 'gs>a+br+!'), call('c1', 'gs>a+br'), call('c2', '.x+gs'), {'op': 'rebuild_cfg', 'cfg': 'c1'}, call('c1', 'gs>a+br+!'),
-          {'op': 'set_global', 'global': 'g0', 'layer': {}}, call('c0', 'gs>a+br+!'), call('c2', '.x+gs'), call('c1', 'gs>a')])
+          call('c0', 'gs>a+br+!'), call('c1', 'gs>a+br'), dict(call('c1', 'gs>a+br'), pass_global=True), call('c1', 'gs>a+br'),
+          call('c2', '.x+gs'), {'op': 'rebuild_cfg', 'cfg': 'c1'}, call('c1', 'gs>a+br+!'),
+          {'op': 'set_global', 'global': 'g0', 'layer': {}}, call('c0', 'gs>a+br+!'), call('c2', '.x+gs'),
+          dict(call('c1', 'gs>a'), pass_global=True), call('c1', 'gs>a'),
+          {'op': 'set_global', 'global': 'g0', 'layer': g1}, dict(call('c1', 'gs>a+br'), pass_global=True), call('c1', 'gs>a+br+!')])
     scen('clone-and-edit', _w([{'id': 'c0', 'holder': 'dict', 'type': 'stylesheet', 'cache': 'k0', 'snippets': STYLE_SN,
                                 'options': {'stylesheet.intUnit': 'rem'}}], caches=['k0']),
          [call('c0', 'kmar+m10'), {'op': 'clone_cfg', 'src': 'c0', 'dst': 'c0x', 'depth': 'shallow'},
